@@ -3,7 +3,8 @@ From Coq Require Import List NArith ZArith Bool.
 From GoPdf.Base Require Import Bytes Res.
 From GoPdf.C01 Require Import Lex Obj Num Names Strings Format Scan Wf
   LexProofs NumProofs NamesProofs StringsProofs FormatProofs ScanProofs
-  SortProofs CanonProofs FuelProofs LimitProofs ArrayLimitProofs MainProofs.
+  SortProofs CanonProofs FuelProofs LimitProofs ArrayLimitProofs LimitsFull MainProofs
+  BufSrc BufSrcProofs Readers ReadersProofs.
 Import ListNotations.
 Open Scope N_scope.
 
@@ -136,34 +137,34 @@ Proof.
   - repeat constructor; cbn; intuition congruence.
 Qed.
 
-(* Limits.  The full statement: every value just beyond one of the limits is rejected with a
-   MalformedFileError.  Proved for strings and names (all inputs) and for arrays without references
-   (limits_reject_array); for dictionaries and nesting only the instances below are checked
-   (Examples), hence the name. *)
-Definition limits_reject_full : Prop :=
-  forall L p, 0 < max_depth L ->
-  (forall s, max_str L <= blen s -> scan_objects L (format p [OStr s]) = Err Malformed) /\
-  (forall n, wfbs n = true -> max_name L <= blen n -> scan_objects L (format p [OName n]) = Err Malformed) /\
+(* Limits.  Every value just beyond one of the five limits is rejected with a MalformedFileError,
+   in both output styles, by the complete reader with its own fuel: strings (literal form: length
+   >= maxStringBytes; hex form, which the reader accepts up to and including the limit: length >
+   maxStringBytes), names, arrays (with or without references among the elements), dictionaries
+   (counting written entries) and nesting depth. *)
+Theorem limits_reject : forall L p, 0 < max_depth L ->
+  (forall s, wfbs s = true ->
+             (if p && use_hex s then max_str L < blen s else max_str L <= blen s) ->
+             scan_objects L (format p [OStr s]) = Err Malformed) /\
+  (forall n, wfbs n = true -> max_name L <= blen n ->
+             scan_objects L (format p [OName n]) = Err Malformed) /\
   (forall l, forallb (wf_obj L 2) l = true -> max_arr L < N.of_nat (length l) ->
              scan_objects L (format p [OArr l]) = Err Malformed) /\
-  (forall l, wf_obj (mkLimits (max_str L) (max_name L) (max_arr L) (N.of_nat (length l)) (max_depth L)) 1 (ODict l) = true ->
+  (forall l, nodup_keys l = true ->
+             forallb (fun kv => wf_name L (fst kv) && wf_obj L 2 (snd kv)) l = true ->
              max_dict L < N.of_nat (length (norm_entries l)) ->
              scan_objects L (format p [ODict l]) = Err Malformed) /\
-  (forall k, max_depth L <= N.of_nat (S k) -> scan_objects L (format p [nest k]) = Err Malformed).
-Theorem limits_reject_partial : forall L,
+  (forall k, max_depth L <= N.of_nat (S k) ->
+             scan_objects L (format p [nest k]) = Err Malformed).
+Proof. exact limits_reject_all. Qed.
+Print Assumptions limits_reject.
+
+(* the same at token level, for any continuation of the input *)
+Theorem limits_reject_tokens : forall L,
   (forall s rest, max_str L <= blen s -> read_string_tok L (fmt_str_lit s ++ rest) = Err Malformed) /\
   (forall n b rest, wfbs n = true -> max_name L <= blen n -> read_name L (fmt_name n ++ b :: rest) = Err Malformed).
 Proof. exact limits_reject_lemma. Qed.
-Print Assumptions limits_reject_partial.
-
-(* arrays: more than maxArrayLen elements (none of them a reference) are rejected, whatever the
-   elements are; the fuel is sufficient, so the rejection is not an artefact of the model *)
-Theorem limits_reject_array : forall L p l fuel,
-  1 < max_depth L -> forallb (wf_obj L 2) l = true -> no_refs l = true ->
-  max_arr L < N.of_nat (length l) -> (lsize [OArr l] + 1 <= fuel)%nat ->
-  scan_objects_fuel L fuel (format p [OArr l] ++ [cRB]) = Err Malformed.
-Proof. exact array_limit_lemma. Qed.
-Print Assumptions limits_reject_array.
+Print Assumptions limits_reject_tokens.
 
 Definition small_limits : limits := mkLimits 8 6 4 3 3.
 Example limits_reject_array_ex :
@@ -185,3 +186,57 @@ Example array_limit_edge :
   scan_objects small_limits (format false [OArr [OInt 1; OInt 2; OInt 3; OInt 4; ORef 5 0]]) = Err Malformed /\
   scan_objects small_limits (format false [OArr [OInt 1; OInt 2; OInt 3; OInt 4; OInt 5]]) = Err Malformed.
 Proof. repeat split; vm_compute; reflexivity. Qed.
+
+(* OutputOptions.  The formatter model takes the option mask of types.go (constants translated):
+   under every mask the text is read back as the values, and setting any of OptDictTypes,
+   OptTrimStandardFonts, OptTextStringUtf8, OptContentStream does not change the text written
+   for native values - only OptPretty reaches them.  (That the implementation behaves like this
+   under all 32 masks is what the harness oracle checks on every generated value list.) *)
+Theorem options_irrelevant : forall L mask os, wf_list L os = true ->
+  scan_objects L (format_opt mask os) = Ok (map norm os, []) /\
+  (forall o, In o inert_options -> format_opt (Z.lor mask o) os = format_opt mask os).
+Proof. exact options_lemma. Qed.
+Print Assumptions options_irrelevant.
+
+(* Buffering transparency.  A reader written against the scanner's interface (PeekN followed by
+   an advance of at most the bytes seen, ScanBytes with its closure) returns the same value and
+   leaves the same input over the buffered source (buffer of BUF bytes, refill with compaction,
+   io.ReadFull [full = true, scanner.go] or a single Read with the latched s.err [full = false,
+   content scanner]) as over the plain byte list - for every buffer size, every state of the
+   buffer and every chunking of the underlying reader, provided no window exceeds the buffer. *)
+Theorem buffering_transparent_any : forall BUF full, (1 <= BUF)%nat -> forall (St A : Type) (p : prog St A),
+  wf_prog BUF full p -> forall st, binv BUF st ->
+  let (a, st') := run_buf BUF full p st in
+  run_list p (view st) = (a, view st') /\ binv BUF st'.
+Proof. exact run_buf_list. Qed.
+Print Assumptions buffering_transparent_any.
+
+(* The token readers of the model: over a scanner with the translated scannerBufSize, in any
+   state (any position of the token relative to the buffer end), SkipWhiteSpace, ReadName (with
+   tryHex's PeekN(3)), ReadNumber, ReadString (escapes, octal look-ahead), ReadHexString and
+   ReadObject's PeekN(5) dispatch on non-composite values compute exactly the list readers of
+   Lex/Names/Num/Strings/Scan on the bytes still to be read. *)
+Theorem buffering_transparent : forall L fuel f d st,
+  binv scanner_buf st -> (length (view st) < fuel)%nat ->
+  reads scanner_buf true skip_ws_p (fun s => match skip_ws s with Ok r => Ok (tt, r) | Err e => Err e end) st /\
+  reads scanner_buf true (read_name_p L fuel) (read_name L) st /\
+  reads scanner_buf true (read_number_p L) (read_number L) st /\
+  reads scanner_buf true (read_string_p L fuel) (read_string L) st /\
+  reads scanner_buf true (read_hex_p L) (read_hex_string L) st /\
+  (composite_head (view st) = false ->
+   reads scanner_buf true (read_atom_p L fuel) (read_object L (S f) d) st).
+Proof. exact buffering_transparent_scanner. Qed.
+Print Assumptions buffering_transparent.
+
+(* every chunking (read sizes >= 1) is a legal start and shows the scanner exactly the data *)
+Theorem buffering_start : forall chunks,
+  Forall nonempty chunks ->
+  binv scanner_buf (scanner_start chunks) /\ view (scanner_start chunks) = concat chunks.
+Proof. exact scanner_start_ok. Qed.
+Print Assumptions buffering_start.
+
+(* a name whose #xx escape straddles the end of an 8-byte buffer, delivered in chunks of 3, 1, 9 *)
+Example buffered_name_ex :
+  read_atoms_buffered std_limits 8 [[32; 32; 32]; [32]; [32; 47; 65; 35; 52; 50; 67; 32; 49]]
+  = Ok [OName [65; 66; 67]; OInt 1].
+Proof. vm_compute. reflexivity. Qed.
